@@ -209,6 +209,23 @@ CHECKS["C17"] = dict(level="exploration", technique="TLC-enumerated programs (vi
     note="Aliasing semantics = naive ascending row-major loop (equal to eager evaluation for exact aliasing; shifted overlapping views follow the loop). "
          "Not covered: qt / float / integer value types, run-time sized views (map<vector>(n, p)), products with aliasing destination, ViewsArray beyond stensor<1>, "
          "out-of-range writes farther than the 64-cell guard zones.", ref="8/C17")
+CHECKS["C06"] = dict(level="exploration", technique="TLC-generated operand lattices + exact derivative from the function's meaning (integer stencils, quotient rule, linearised eigen-equations) judged by TLC (Derivatives.tla)",
+    text="29 helper kinds x N=1,2,3: det / deviator-det first and second derivatives (stensor and tensor, incl. the computeJ3* synonyms), dsquare, stpd, daba_da/db, "
+         "tpld/tprd of t2tot2 and st2tot2 with their chain-rule variants, transpose_derivative, velocity-gradient / spin / rate-of-deformation derivatives, dCdF, dBdF, "
+         "computePushForwardDerivative, Cauchy<->Kirchhoff derivative conversions, to/from PK1 derivative conversions, eigenvalue and eigentensor derivatives. The functions "
+         "are written in index notation on integer 3x3 matrices; their exact directional derivatives come from central stencils that are exact for the polynomial degree "
+         "(no closed form transcribed); eigen helpers are judged by the linearised defining equations (implicit function theorem) on integer-quaternion rotations; the harness "
+         "reports the full natural Jacobian / Hessian as exact integers; TLC judges equality and Hessian symmetry.",
+    note="Integer lattices only (generic dense operands, <=2 (thorough <=3) non-zero components, det F up to 284); conditioning near repeated eigenvalues / det F -> 0 not explored. "
+         "stpd judged against its header formula d(s1.s+s.s1)/ds1 (docs/web says derivative of the symmetric product = half of that).", ref="8/C06")
+CHECKS["C23"] = dict(level="exploration", technique="conversion graph + exact operator of every flag from its definition on a polynomial hyperelastic law (FiniteStrain.tla), paths enumerated and judged by TLC",
+    text="The 40 converter specialisations and the 33-entry MFront chaining table (observed by compiling the real translation unit) are the graph; TLC checks that the table only "
+         "uses existing converters and that each of the 12 meaningful flags reaches every other one. For 3 hyperelastic laws x integer F1 (shears, 90/120-degree rotations x stretches, "
+         "det 1,2,3,6) x F0 x N=1,2,3 the true operator of each flag is computed from its definition; the real convert<> functions are run along every path of <=3 (thorough <=4) "
+         "conversions from the true source operator and TLC judges the result against the truth of the last flag (so path independence and composition follow), naming the faulty edge. "
+         "Stress conversions Cauchy/PK1/PK2/corotational are judged by their defining relations and round trips.",
+    note="DT_DELOG converters: only direct-vs-chained agreement (1e-9 residual), values belong to C24. DSIG_DDE / DS_DDF have no converter. Integer F and moduli only; rational rotations "
+         "not used (signed permutations are the large rotations).", ref="8/C23")
 CHECKS["C39"] = dict(level="model_checking", technique="decode table of K[0] and return convention in TLA+ judged by TLC on calls of a generated probe behaviour + TLC model checking of the entry-point stages",
     text="A probe behaviour with distinguishable operators (1,2,3 x Id predictions; 10..40 x Id tangents) and a run-time selectable failure "
          "stage is generated by the current mfront (small strain, GreenLagrange and Hencky variants) and called through the real generic "
